@@ -29,13 +29,6 @@ Proof.
 Qed.
 
 (* ---------- one partition table entry ---------- *)
-Definition boot_okb (e : bytes) : bool := (pte_boot e =? 0) || (pte_boot e =? 128).
-Definition is_ee (e : bytes) : bool := pte_type e =? 238.
-Definition nonzero (e : bytes) : bool := negb (pte_type e =? 0).
-Definition start_okb (e : bytes) : bool :=
-  (bnth 1 e =? 0) && (bnth 2 e =? 2) && (bnth 3 e =? 0) && (pte_lba e =? 1).
-Definition entry_okb (e : bytes) : bool := boot_okb e && (negb (is_ee e) || start_okb e).
-
 Lemma blen_pte b i : 512 <= blen b -> i < 4 -> blen (pte b i) = 16.
 Proof. intros. unfold pte. rewrite blen_bslice. lia. Qed.
 
